@@ -377,9 +377,11 @@ class IoWorld:
             if list(hdr["size"]) != list(h["size"]):
                 out.append(self.viol("grid-differs", op, name, rec, {"field": "size", "want": h["size"].tolist(), "got": list(map(int, hdr["size"]))}, pair))
                 return out
-            for fld, atol in (("origin", 1e-4), ("spacing", 1e-6), ("direction", 1e-5)):
+            sp = float(np.min(np.abs(h["spacing"])))
+            # relative to the scale of the geometry: 1e-5 of the value, and for the origin 1e-4 of a voxel
+            for fld, atol in (("origin", 1e-4 * sp), ("spacing", 0.0), ("direction", 1e-5)):
                 if not np.allclose(np.asarray(hdr[fld], dtype=np.float64), h[fld], rtol=1e-5, atol=atol):
-                    out.append(self.viol("grid-differs", op, name, rec, {"field": fld, "want": np.round(h[fld], 6).tolist(), "got": np.round(np.asarray(hdr[fld], dtype=np.float64), 6).tolist()}, pair))
+                    out.append(self.viol("grid-differs", op, name, rec, {"field": fld, "want": h[fld].tolist(), "got": np.asarray(hdr[fld], dtype=np.float64).tolist()}, pair))
                     return out
         return out
 
@@ -422,9 +424,16 @@ class _Ops:
         if kind == "flow":
             axes = op["axes"]
             flow_t = make_flow(desc, grid)
+            default_axes = axes == "default"
+            if default_axes:
+                # no axes given: the vectors are in the normalised units of the flow's own grid (its align_corners flag)
+                axes = "cube_corners" if grid.align_corners() else "cube"
             if axes in ("cube", "cube_corners"):
                 flow_t = flow_t * 0.05
-            obj = FlowField(layout_tensor(flow_t, op.get("layout", "contig")), grid, Axes(axes))
+            if default_axes:
+                obj = FlowField(layout_tensor(flow_t, op.get("layout", "contig")), grid)
+            else:
+                obj = FlowField(layout_tensor(flow_t, op.get("layout", "contig")), grid, Axes(axes))
             expected = cube_vec_to_world(flow_t, grid, axes).numpy().astype(np.dtype(desc["dtype"]))
             entry = "FlowField.write"
             call = lambda: obj.write(arg, compress=compress)
@@ -474,7 +483,7 @@ class _Ops:
         after = self.snapshot()
         touched = self.changed(before, after)
         self.invalidate(touched, keep=name)
-        rec = Record(name, kind, expected, hdr, set(), "deepali", True, op.get("axes"), flow_t, compress, dict(desc))
+        rec = Record(name, kind, expected, hdr, set(), "deepali", True, (axes if kind == "flow" else op.get("axes")), flow_t, compress, dict(desc))
         out = StepResult("ok", self.fs_digest(after))
         foreign = {t for t in touched if not t.startswith(self.stem_of(name) + ".")}
         if st == "faulted":
@@ -634,7 +643,8 @@ class _Ops:
         h = rec.hdr
         if list(hdr["size"]) != list(h["size"]):
             return [self.viol("grid-differs", entry, name, rec, {"field": "size"}, pair)]
-        for fld, atol in (("origin", 1e-4), ("spacing", 1e-6), ("direction", 1e-5)):
+        sp = float(np.min(np.abs(h["spacing"])))
+        for fld, atol in (("origin", 1e-4 * sp), ("spacing", 0.0), ("direction", 1e-5)):
             if not np.allclose(hdr[fld], h[fld], rtol=1e-5, atol=atol):
                 out.append(self.viol("grid-differs", entry, name, rec, {"field": fld, "want": np.round(h[fld], 6).tolist(), "got": np.round(hdr[fld], 6).tolist()}, pair))
                 break
@@ -785,10 +795,15 @@ class _Gen:
             import math
             gd["angles"] = [rng.choice([0.0, math.pi / 2, -math.pi / 2, math.pi]) for _ in gd["angles"]]
         gd["spacing"] = [rng.choice([0.5, 0.8, 1.0, 1.25, 2.0, 3.3]) for _ in range(D)]
+        unit = rng.weighted([(1.0, 6), (1e-3, 1.5), (37.5, 1)])
+        if unit != 1.0:
+            # micrometre- or metre-scale geometry: header values with many significant digits / small magnitudes
+            gd["spacing"] = [round(v * unit * rng.choice([1.0, 1.302083, 0.651042]), 9) for v in gd["spacing"]]
+            gd["center"] = [round(c * unit, 9) for c in gd["center"]]
         if kind == "flow":
             size = [max(2, n) for n in size]  # normalised (cube) vector components are undefined along an axis with one sample
         return {"D": D, "C": C, "dtype": dtype, "size": size, "grid": gd, "seed": rng.subseed(), "amp": rng.round(0.2, 2.0, 2),
-                "extremes": bool(kind != "flow" and rng.chance(0.3))}
+                "extremes": bool(kind != "flow" and rng.chance(0.3)), "align_corners": bool(rng.chance(0.7)), "unit": unit}
 
     def pick_name(self, rng: Rng, collide: bool) -> str:
         existing = sorted(os.listdir(self.root))
@@ -849,7 +864,7 @@ class _Gen:
             if kind == "dwrite":
                 op["form"] = rng.weighted([("str", 4), ("path", 2), ("uri", 1), ("rel", 1)])
                 if pk == "flow":
-                    op["axes"] = rng.choice(["world", "grid", "cube", "cube_corners"])
+                    op["axes"] = rng.choice(["world", "grid", "cube", "cube_corners", "default"])
                     if rng.chance(0.15):
                         op["entry"] = "sitk_bridge"
                 else:
